@@ -137,8 +137,12 @@ def _judge(sc):
         if rng.random() < 0.4:
             o["from_state"], _ = fs([0] if not is_model else rng.sample(sorted(odim), 1))
         before = _states(b)
+        # the failing test node counts its successful calls in a closure (harness-side hidden memory): rewind it before the repeat
+        counters = {i: dict(n._verif_counter) for i, n in b.nodes.items() if hasattr(n, "_verif_counter")}
         ok1, r1 = _do(m, o, X)
         after = _states(b)
+        for i, c in counters.items():
+            b.nodes[i]._verif_counter.update(c)
         if not _same(before, after):
             key = "state-not-restored-on-failure" if not ok1 else "stateless:state-changed"
             return _viol(key, "a stateful=False operation (%s) changed the current state of a node" % ("failed" if not ok1 else "completed"), sc,
